@@ -39,6 +39,25 @@ def in_domain(t1, t2, **kw):
     return True, ''
 
 
+def set_member_alias(t1, t2):
+    """two members of sets of the inputs that are == but of different types (1 / True / 1.0): DeepDiff tells them apart, Python's set
+    operations in Delta do not (finding F45)"""
+    mem = []
+
+    def walk(v):
+        if isinstance(v, (set, frozenset)):
+            mem.extend(v)
+        elif isinstance(v, dict):
+            for x in v.values():
+                walk(x)
+        elif isinstance(v, (list, tuple)):
+            for x in v:
+                walk(x)
+    walk(t1); walk(t2)
+    nums = [x for x in mem if isinstance(x, (bool, int, float))]
+    return any(a == b and type(a) is not type(b) for i, a in enumerate(nums) for b in nums[i + 1:])
+
+
 def cfgs(ctx, full):
     grid = list(itertools.product((False, True), (0, 0.33, 0.9), (0, 1, 2), ('text', 'tree'), (False, True)))
     if full:
@@ -56,6 +75,9 @@ def special_pairs():
         ({None: 1, 'a': 2}, {'a': 2}),                         # fixed F3
         ([1], [1, {'old_value': 5, 'x': 1}]), ({'a': 1}, {'a': 1, 'b': {'old_value': 7}}),   # fixed F30 (t2 was modified)
         ({'a': {'old_value': 1, 'new_value': 2}}, {'a': {'old_value': 1, 'new_value': 3}, 'old_type': [{'old_value': 0}]}),
+        # texts that differ only in their line terminators (the convenience line diff is empty, the values are not equal)
+        ({'k': 'alpha\nBETA\ngamma'}, {'k': 'alpha\nBETA\ngamma\n'}), (['a\nb', 1], ['a\r\nb', 1]), (('x\ny\n',), ('x\ny',)), ({'k': [b'p\nq']}, {'k': [b'p\nq\n']}),
+        ({'t': 'one\x0ctwo'}, {'t': 'one\ntwo'}), ([{'d': 'l1\nl2'}], [{'d': 'l1\u2028l2'}]),
         ({'a': (1, 2, 3)}, {'a': (1, 5, 3)}),
         ([{'x': [1, 2]}, {'y': {1, 2}}], [{'x': [2, 1, 3]}, {'y': {2, 3}}]),
         ({'k': 'multi\nline', 'n': None}, {'k': 'multi\nline2', 'n': 0}),
@@ -96,6 +118,8 @@ def check_pair(ctx, t1, t2, zip_, thr, vb, view, always, lines, metas, impl_only
         ok_dom, why = (True, '') if is_np else in_domain(t1, t2, **kw)
     except Exception as e:
         ok_dom, why = True, ''
+    if ok_dom and not is_np and set_member_alias(t1, t2):
+        ok_dom, why = False, 'F45: set members that are == but of different types'
     try:
         dd = DeepDiff(t1, t2, verbose_level=vb, view=view, **kw)
         delta = Delta(dd, always_include_values=always)
@@ -208,6 +232,7 @@ def run(ctx, impl_only=False):
     import datetime as _dt
     wit = {
         'F42': lambda: same([_dt.datetime(2020, 1, 1, 2, 3)], [_dt.datetime(2021, 5, 6)]),
+        'F45': lambda: same({1}, {True}) and same([{0, 'a'}], [{False, 'a'}]),
         'F4b': lambda: same([([], {1})], [([], {1, 'b'})]),
         'F4c': lambda: same([((1, 2), 0)], [((1, 3), 0)]),
     }
